@@ -356,6 +356,13 @@ Definition run_pad_split (a : list Z) : list Z :=
   | _ => [-1]
   end.
 
+(* CMD diag_plane = 13 : depth -> the depth x depth plane (row = input channel), row major *)
+Definition run_diag_plane (a : list Z) : list Z :=
+  match a with
+  | [d] => concat (diag_plane (Z.to_nat d))
+  | _ => [-1]
+  end.
+
 Definition run (cmd : Z) (a : list Z) : list Z :=
   if cmd =? 1 then run_driver_payload a
   else if cmd =? 2 then run_driver_parse a
@@ -369,4 +376,5 @@ Definition run (cmd : Z) (a : list Z) : list Z :=
   else if cmd =? 10 then run_dilated_decision a
   else if cmd =? 11 then run_widen_kernel a
   else if cmd =? 12 then run_pad_split a
+  else if cmd =? 13 then run_diag_plane a
   else [-1].
